@@ -311,6 +311,7 @@ def run_op(op, pid, case, finite_max=2):
         for I, out in vc.explore(body, contracts=ctr, max_paths=op.MAX_PATHS):
             if isinstance(out, vc.Outcome) and out.kind == 'unsupported':
                 res.append(vc.unsupported_result(f'{pre}unsupported', cname, out.note))
+                res += [r for r in vc.definite_results(I, pre, cname) if op.serves(r['name'], pid)]
                 continue
             res += vc.discharge(I, pre, cname, timeout, ladder=ladder, only=only, fallbacks=fallbacks)
         return dedupe(res)
